@@ -11,6 +11,7 @@ pub type Ident = (Result<Vec<u8>, String>, Result<String, String>);
 
 /// Runs both public readers on a slice; Err(panic signature) if either panics.
 pub fn identify(img: &[u8]) -> Result<Ident, (String, String)> {
+    let _w = crate::util::watch_call("ELF identification of a byte image", Some(img));
     let r = std::panic::catch_unwind(|| {
         let id = BuildId::read_from_module(ProcessMemory::Slice(img)).map(|b| b.0).map_err(|e| format!("{e}"));
         let so = SoName::read_from_module(ProcessMemory::Slice(img)).map(|s| s.0).map_err(|e| format!("{e}"));
@@ -44,6 +45,9 @@ fn check_synthetic(seed: u64) -> Item {
             spec.vaddr_bias &= 0xffff_ffff;
         }
     }
+    // one image in five has been through a post-link editor: its string table is reached through a
+    // further PT_LOAD with its own address-to-offset delta
+    spec.strtab_own_segment = seed % 5 == 0;
     let built = elf::build(&spec);
     let mut it = item(fnv(format!("{:?}{:?}{:?}{}{}{}{}", spec.phdr_note, spec.section_note, spec.soname, spec.bits64, spec.section_table, spec.text.len(), spec.vaddr_bias).as_bytes()), true);
     // expected by construction
@@ -146,6 +150,7 @@ fn single_field_sweep(bits64: bool, section_only: bool) -> Vec<Item> {
         soname_last: false,
         dynamic_section_cuts_null: false,
         big_endian: false,
+        strtab_own_segment: false,
     };
     let built = elf::build(&spec);
     let mut out = Vec::new();
